@@ -45,6 +45,7 @@ type spec struct {
 	Orders map[string][]string // function -> callees whose call order is emitted
 	Erro   bool                // emit the Traceable table of package erro
 	Pure   map[string][]string // name -> root functions whose transitive package-local writes are emitted
+	Lits   map[string][2][]string // function -> (watched callee names, watched variables): skeleton of its function literals
 }
 
 var specs = []spec{
@@ -70,6 +71,9 @@ var specs = []spec{
 	{Out: "Erro", Arch: "amd64", Pkg: "./erro", Erro: true},
 	{Out: "ArgPurity", Arch: "amd64", Pkg: "./arg", Pure: map[string][]string{
 		"arg_eval": {"*.Eval", "equal", "ExpandVariadic"},
+	}},
+	{Out: "DebugShape", Arch: "amd64", Pkg: ".", Lits: map[string][2][]string{
+		"interceptDebugInfo": {{"originPFunc", "Call", "CallSlice", "IsVariadic", "originImp"}, {"results", "params"}},
 	}},
 	{Out: "Page", Arch: "amd64", Pkg: "./internal/bytecode/memory", Funcs: []string{"PageStart"}, Loops: []string{"mProtectCrossPage"}, Shapes: []string{"WriteTo"}},
 }
@@ -127,7 +131,7 @@ func runSpec(repo, out string, sp spec) result {
 	if len(sp.Shapes) > 0 {
 		sb.WriteString("From Goom Require Import Model.WriteTo.\n")
 	}
-	if len(sp.Orders) > 0 || sp.Erro || len(sp.Pure) > 0 {
+	if len(sp.Orders) > 0 || sp.Erro || len(sp.Pure) > 0 || len(sp.Lits) > 0 {
 		sb.WriteString("From Coq Require Import String.\nOpen Scope string_scope.\n")
 	}
 	sb.WriteString("Open Scope Z_scope.\n\n")
@@ -219,6 +223,22 @@ func runSpec(repo, out string, sp spec) result {
 		sort.Strings(ns)
 		for _, n := range ns {
 			s, err := trPurity(pkg, n, sp.Pure[n])
+			if err != nil {
+				res.Failed[n] = err.Error()
+				continue
+			}
+			sb.WriteString(s)
+			res.OK = append(res.OK, n)
+		}
+	}
+	{
+		var ns []string
+		for n := range sp.Lits {
+			ns = append(ns, n)
+		}
+		sort.Strings(ns)
+		for _, n := range ns {
+			s, err := trLitTrace(pkg, n, sp.Lits[n][0], sp.Lits[n][1])
 			if err != nil {
 				res.Failed[n] = err.Error()
 				continue
